@@ -159,6 +159,12 @@ func (g *sgen) inboxActivity(ty string, world J) J {
 	if g.r.chance(8) {
 		no = 0
 	}
+	if ty == "Arrive" || ty == "Travel" || ty == "Question" {
+		// intransitive: activities in the vocabulary without an object property (a member of that name is unknown to them)
+		if g.r.chance(80) {
+			no = 0
+		}
+	}
 	var objs []interface{}
 	switch ty {
 	case "Create":
@@ -250,7 +256,7 @@ func (g *sgen) inboxActivity(ty string, world J) J {
 	return a
 }
 
-var outboxTypes = []string{"Create", "Update", "Delete", "Follow", "Add", "Remove", "Like", "Undo", "Block", "Announce", "Accept", "Note", "Article", "Listen"}
+var outboxTypes = []string{"Create", "Update", "Delete", "Follow", "Add", "Remove", "Like", "Undo", "Block", "Announce", "Accept", "Note", "Article", "Listen", "Arrive", "Travel", "Question"}
 
 // something a client posts to alice's outbox
 func (g *sgen) outboxValue(ty string, world J) J {
@@ -322,6 +328,24 @@ func (g *sgen) outboxValue(ty string, world J) J {
 	default:
 		for i := 0; i < no; i++ {
 			objs = append(objs, g.ref(g.r.pick([]string{remote("/notes/8"), remote("/notes/9"), bob, local("/notes/1")}), "Note", g.r.chance(30)))
+		}
+		if no > 0 && g.r.chance(25) {
+			// IRIs and embedded objects mixed, the embedded ones with hidden recipients of their own
+			objs = nil
+			for i := 0; i < 2+g.r.intn(2); i++ {
+				if g.r.chance(45) {
+					objs = append(objs, g.r.pick([]string{remote("/notes/8"), remote("/notes/9"), local("/notes/1")}))
+					continue
+				}
+				o := J{"type": "Note", "id": remote(fmt.Sprintf("/notes/m%d", i)), "content": "mixed"}
+				if g.r.chance(70) {
+					o["bto"] = asList([]interface{}{bob})
+				}
+				if g.r.chance(70) {
+					o["bcc"] = []interface{}{carol}
+				}
+				objs = append(objs, o)
+			}
 		}
 	}
 	if no > 0 {
